@@ -156,26 +156,95 @@ def _payload(size, tag):
 
 
 def zip_members(limit, sizes):
-    """-> per member: (declared size, was zf.read called for it, texts extracted)"""
-    from sharepoint2text.parsing.extractors import archive_extractor as A
-    buf = io.BytesIO()
-    with zipfile.ZipFile(buf, "w", zipfile.ZIP_DEFLATED) as zf:
-        for i, s in enumerate(sizes):
-            zf.writestr(f"m{i}.txt", _payload(s, i))
-    reads = []
-    orig = zipfile.ZipFile.read
+    """-> per member: (declared size, was a read handle opened for it — zf.read / zf.open / zf.extract all go through
+    ZipFile.open —, texts extracted)"""
+    data = zip_archive([{"name": f"m{i}.txt", "size": s} for i, s in enumerate(sizes)])
+    got = zip_loop(limit, data)
+    opened = {h[1] for h in got["handles"]}
+    return [(s, i in opened) for i, s in enumerate(sizes)], got["n_out"]
 
-    def spy(self, name, pwd=None):
-        info = name if isinstance(name, zipfile.ZipInfo) else self.getinfo(name)
-        reads.append(info.filename)
-        return orig(self, name, pwd)
-    zipfile.ZipFile.read = spy
+
+def zip_archive(entries):
+    """entries: [{"name", "size", optional "stored": bool}] in central-directory order -> archive bytes.
+    Names may repeat (zipfile warns and writes both entries; `getinfo(name)` / `NameToInfo` then resolve the name to
+    the LAST entry carrying it, `infolist()` still lists every entry)."""
+    import warnings
+    buf = io.BytesIO()
+    with warnings.catch_warnings():
+        warnings.simplefilter("ignore")
+        with zipfile.ZipFile(buf, "w") as zf:
+            for i, e in enumerate(entries):
+                zi = zipfile.ZipInfo(e["name"])
+                zi.compress_type = zipfile.ZIP_STORED if e.get("stored") else zipfile.ZIP_DEFLATED
+                zf.writestr(zi, _payload(e["size"], i))
+    return buf.getvalue()
+
+
+def zip_reference(data):
+    """what plain `zipfile` says about every central-directory entry: name, declared size, bytes its OWN handle
+    (`zf.open(info)`) delivers, and the index of the entry its NAME resolves to — the inputs of the Lean model"""
+    ref = []
+    with zipfile.ZipFile(io.BytesIO(data)) as zf:
+        infos = zf.infolist()
+        for zi in infos:
+            with zf.open(zi) as fh:
+                n = len(fh.read())
+            ref.append({"name": zi.filename, "declared": zi.file_size, "delivers": n,
+                        "name_resolves_to": [id(x) for x in infos].index(id(zf.getinfo(zi.filename)))})
+    return ref
+
+
+def zip_loop(limit, data):
+    """run the real ZIP member loop on archive bytes -> {"handles": [[how the entry was named: "info" | "name",
+    index of the central-directory entry actually opened (-1: a ZipInfo that is not in the list), its name, bytes the
+    handle delivered in total]], "entries": [[name, len(data)] handed to _process_archive_entry], "n_out", "err"}.
+    Every way to get at member bytes goes through ZipFile.open (read, extract, extractall call it)."""
+    from sharepoint2text.parsing.extractors import archive_extractor as A
+    handles, entries = [], []
+    orig_open = zipfile.ZipFile.open
+    orig_all, orig_one = zipfile.ZipFile.extractall, zipfile.ZipFile.extract
+    orig_entry = A._process_archive_entry
+
+    def spy_open(self, name, mode="r", *a, **k):
+        f = orig_open(self, name, mode, *a, **k)
+        if mode != "r":
+            return f
+        how = "info" if isinstance(name, zipfile.ZipInfo) else "name"
+        info = name if how == "info" else self.getinfo(name)
+        ids = [id(x) for x in self.filelist]
+        rec = [how, ids.index(id(info)) if id(info) in ids else -1, info.filename, 0]
+        handles.append(rec)
+        log = []
+        h = _CountingHandle(f, info.filename, log)
+
+        class _Sum(list):
+            def append(self_, item):
+                rec[3] += max(0, item[1])
+        h._log = _Sum()
+        return h
+
+    def no_extract(self, *a, **k):
+        handles.append(["extract/extractall", -1, "<to disk>", -1])
+        raise zipfile.BadZipFile("extract/extractall is not expected in the member loop (observation)")
+
+    def spy_entry(filename, file_data, *a, **k):
+        entries.append([filename, len(file_data)])
+        return orig_entry(filename, file_data, *a, **k)
+    zipfile.ZipFile.open = spy_open
+    zipfile.ZipFile.extractall = zipfile.ZipFile.extract = no_extract
+    A._process_archive_entry = spy_entry
+    err, outs = None, []
     try:
         with _Config(limit):
-            outs = list(A._extract_from_zip_optimized(io.BytesIO(buf.getvalue()), None))
+            try:
+                outs = list(A._extract_from_zip_optimized(io.BytesIO(data), None))
+            except Exception as e:
+                err = type(e).__name__
     finally:
-        zipfile.ZipFile.read = orig
-    return [(s, f"m{i}.txt" in reads) for i, s in enumerate(sizes)], len(outs)
+        zipfile.ZipFile.open = orig_open
+        zipfile.ZipFile.extractall, zipfile.ZipFile.extract = orig_all, orig_one
+        A._process_archive_entry = orig_entry
+    return {"handles": handles, "entries": entries, "n_out": len(outs), "err": err}
 
 
 _TAR_TYPES = {"reg": tarfile.REGTYPE, "hardlink": tarfile.LNKTYPE, "symlink": tarfile.SYMTYPE, "dir": tarfile.DIRTYPE,
@@ -307,28 +376,93 @@ def sevenzip_is_fixed():
     return "members" in inspect.signature(sevenzip.SevenZipFile.extractall).parameters
 
 
-def sevenzip_extract(limit, folders, method=None, empty_files=()):
-    """folders: [[(name, size), ...], ...] (one 7z folder each; sizes are real payload sizes).
-    -> {"decoded": [(folder index, output bytes)], "written": {name: size}, "texts": n, "err": None|class}
-    Observed by wrapping SevenZipReader._decompress_folder and listing the temp directory before it is removed.
+class _CountingDecompressor:
+    """an lzma.LZMADecompressor whose every decompress() call is recorded (bytes produced)"""
+
+    def __init__(self, d, log, cur):
+        self._d, self._log, self._cur = d, log, cur
+
+    def decompress(self, data, max_length=-1):
+        out = self._d.decompress(data, max_length)
+        self._log.append((self._cur[0], len(out)))
+        return out
+
+    def __getattr__(self, k):
+        return getattr(self._d, k)
+
+
+class _LzmaSpy:
+    """stands in for the `lzma` module inside sevenzip.py: whatever the library's own functions look like, every byte
+    an LZMA / LZMA2 decoder produces passes through here"""
+
+    def __init__(self, log, cur):
+        self._log, self._cur = log, cur
+
+    def LZMADecompressor(self, *a, **k):
+        import lzma
+        return _CountingDecompressor(lzma.LZMADecompressor(*a, **k), self._log, self._cur)
+
+    def decompress(self, data, *a, **k):
+        import lzma
+        out = lzma.decompress(data, *a, **k)
+        self._log.append((self._cur[0], len(out)))
+        return out
+
+    def __getattr__(self, k):
+        import lzma
+        return getattr(lzma, k)
+
+
+def sevenzip_extract(limit, folders, method=None, empty_files=(), chains=None):
+    """folders: [[(name, size), ...], ...] (one 7z folder each; sizes are real payload sizes; names may repeat).
+    chains: per folder None (one coder: `method`) or a list of coder names, coder 0 first (["bcj", "lzma2"]).
+    -> {"decoded": [(folder index, output bytes)], "written": {name: size}, "texts": n, "err": None|class,
+        "stages": [(folder index, coder name, input bytes, output bytes)] of every _apply_decoder call in call order,
+        "lzma_out": [(folder index, bytes produced by one LZMADecompressor.decompress / lzma.decompress call)],
+        "entries": [(name, len(data))] handed to _process_archive_entry}
+    Observed by wrapping SevenZipReader._decompress_folder / _apply_decoder, by standing in for the lzma module inside
+    sevenzip.py, and by listing the temp directory before it is removed.
     """
     from sharepoint2text.parsing.extractors import archive_extractor as A
     from sharepoint2text.parsing.extractors.util import sevenzip
     if method is None:
         method = Z.LZMA          # (folders are decoded from their own pack streams since the C10 fix 03b42ae)
-    arch = Z.build([{"method": method, "files": [(nm, _payload(sz, nm)) for nm, sz in f]} for f in folders],
-                   empty_files=empty_files)
-    decoded, written = [], {}
+    specs = []
+    for i, f in enumerate(folders):
+        spec = {"method": method, "files": [(nm, _payload(sz, f"{i}/{j}/{nm}")) for j, (nm, sz) in enumerate(f)]}
+        if chains is not None and chains[i]:
+            spec["chain"] = [Z.CODER_BY_NAME[c] for c in chains[i]]
+        specs.append(spec)
+    arch = Z.build(specs, empty_files=empty_files)
+    decoded, written, stages, lzma_out, entries, cur = [], {}, [], [], [], [-1]
     orig_dec = sevenzip.SevenZipReader._decompress_folder
+    orig_stage = getattr(sevenzip.SevenZipReader, "_apply_decoder", None)
+    orig_entry = A._process_archive_entry
+    saved_lzma = sevenzip.lzma
 
     def spy_dec(self, folder, *a, **k):
-        out = orig_dec(self, folder, *a, **k)
         try:
             idx = [id(f) for f in self._folders].index(id(folder))
         except ValueError:
             idx = -1
+        prev, cur[0] = cur[0], idx
+        try:
+            out = orig_dec(self, folder, *a, **k)
+        finally:
+            cur[0] = prev
         decoded.append((idx, len(out)))
         return out
+
+    def spy_stage(self, coder_id, properties, data, *a, **k):
+        rec = [cur[0], Z.CODER_NAMES.get(bytes(coder_id), bytes(coder_id).hex()), len(data), None]
+        stages.append(rec)
+        out = orig_stage(self, coder_id, properties, data, *a, **k)
+        rec[3] = len(out)
+        return out
+
+    def spy_entry(filename, file_data, *a, **k):
+        entries.append((filename, len(file_data)))
+        return orig_entry(filename, file_data, *a, **k)
 
     class SpyTmp(tempfile.TemporaryDirectory):
         def __exit__(self, *a):
@@ -344,6 +478,10 @@ def sevenzip_extract(limit, folders, method=None, empty_files=()):
         def __getattr__(self, k):
             return getattr(tempfile, k)
     sevenzip.SevenZipReader._decompress_folder = spy_dec
+    if orig_stage is not None:
+        sevenzip.SevenZipReader._apply_decoder = spy_stage
+    sevenzip.lzma = _LzmaSpy(lzma_out, cur)
+    A._process_archive_entry = spy_entry
     saved_tmp = A.tempfile
     A.tempfile = _TmpMod()
     err, outs = None, []
@@ -355,8 +493,14 @@ def sevenzip_extract(limit, folders, method=None, empty_files=()):
                 err = type(e).__name__
     finally:
         sevenzip.SevenZipReader._decompress_folder = orig_dec
+        if orig_stage is not None:
+            sevenzip.SevenZipReader._apply_decoder = orig_stage
+        sevenzip.lzma = saved_lzma
+        A._process_archive_entry = orig_entry
         A.tempfile = saved_tmp
-    return {"decoded": decoded, "written": written, "texts": len(outs), "err": err, "archive_len": len(arch)}
+    return {"decoded": decoded, "written": written, "texts": len(outs), "err": err, "archive_len": len(arch),
+            "stages": [tuple(r) for r in stages], "lzma_out": lzma_out, "entries": entries,
+            "stage_probe": orig_stage is not None}
 
 
 def sevenzip_lzma2_bomb(real, declared):
